@@ -164,6 +164,10 @@ Definition digit_val (a : ascii) : N := N.of_nat (nat_of_ascii a - 48).
 Definition dval (l : list ascii) : N :=
   fold_left (λ acc a, if is_digit a then (10 * acc + digit_val a)%N else acc) l 0%N.
 
+(** the value of an integer literal ([int(text)]): the exact positional decimal reading of its
+    digits (digit-group underscores are skipped) — no detour through a double *)
+Definition lit_int_value (s : string) : N := dval (list_ascii_of_string s).
+
 (** * Cases *)
 Inductive c07case :=
 | KBuild (toks : list tok) (r : bres)
@@ -175,6 +179,8 @@ Inductive c07case :=
     (* both at once: [KRender s e toks shown] and [KBuild (toks ++ [NEWLINE; ENDMARKER]) r] *)
 | KLegal (e : expr) (b : bool)
 | KLit (n : nit) (s : string) (k : numkind)
+| KLitVal (s : string) (v : N)
+    (* float registry: the integer literal [s] evaluates to the int [v] *)
 | KConcise (ndec : nat) (digits : string) (text : string).
     (* uncertainty_tokenizer("N(digits)") with a nominal of ndec decimals yields the token [text] *)
 
@@ -195,5 +201,6 @@ Definition c07_ok (f16 : bool) (tbl : list (string * Z)) (c : c07case) : bool :=
   | KTree s e toks shown r => render_ok s e toks shown && build_ok f16 tbl (toks ++ [TOther; TEnd]) r
   | KLegal e b => eqb (legal e) b
   | KLit n s k => numkind_eqb (lit_kind n s) k
+  | KLitVal s v => is_int_lit s && N.eqb (lit_int_value s) v
   | KConcise ndec digits text => String.eqb (concise_text ndec digits) text
   end.
